@@ -981,6 +981,9 @@ func (m *machine) eval(fr *frame, v ssa.Value) AV {
 				c.val, c.have = v, true
 			}
 		}
+		if c.elems == nil {
+			m.staticArrayInit(x, c)
+		}
 		return avPtr{c}
 	case *ssa.Function:
 		return avFunc{fn: x}
@@ -1262,6 +1265,14 @@ func (m *machine) evalInstr(fr *frame, v ssa.Value) AV {
 		}
 		return avOpaque{"lookup"}
 	case *ssa.Index:
+		// an element of an array value with known cells (a package-level table ranged over by value)
+		if sv, ok := m.eval(fr, x.X).(avStruct); ok && sv.c != nil {
+			if _, isArr := sv.c.typ.Underlying().(*types.Array); isArr && sv.c.elems != nil {
+				if idx, ok := m.eval(fr, x.Index).(avInt); ok && idx.atom == "" && int(idx.conc) >= 0 && int(idx.conc) < len(sv.c.elems) && sv.c.elems[idx.conc] != nil {
+					return m.loadCell(sv.c.elems[idx.conc])
+				}
+			}
+		}
 		return avOpaque{"index"}
 	case *ssa.Range:
 		if mm, ok := m.eval(fr, x.X).(avMap); ok {
@@ -2055,6 +2066,63 @@ func (m *machine) staticSliceInit(g *ssa.Global) (AV, bool) {
 		}
 	}
 	return avSlice{cells: cells}, true
+}
+
+// staticArrayInit: a module-level array variable whose elements are stored only by the package initialiser, each from a
+// constant or another package's variable (sentinel errors), is materialised with those elements.
+func (m *machine) staticArrayInit(g *ssa.Global, c *cell) {
+	at, isArr := g.Type().(*types.Pointer).Elem().Underlying().(*types.Array)
+	if !isArr || g.Pkg == nil || !strings.HasPrefix(g.Pkg.Pkg.Path(), modPath) || at.Len() > 64 {
+		return
+	}
+	vals := map[int]AV{}
+	ok := true
+	for _, fn := range m.w.ModFuncs {
+		allInstrs(fn, func(in ssa.Instruction) {
+			switch x := in.(type) {
+			case *ssa.Store:
+				if x.Addr == ssa.Value(g) {
+					ok = false // assigned as a whole somewhere
+				}
+			case *ssa.IndexAddr:
+				if x.X != ssa.Value(g) {
+					return
+				}
+				for _, r := range *x.Referrers() {
+					st, isSt := r.(*ssa.Store)
+					if !isSt || st.Addr != ssa.Value(x) {
+						continue
+					}
+					idx, isC := x.Index.(*ssa.Const)
+					if !isC || !(fn.Synthetic != "" && fn.Name() == "init") {
+						ok = false
+						continue
+					}
+					var v AV
+					switch e := st.Val.(type) {
+					case *ssa.Const:
+						v = m.constVal(e)
+					case *ssa.UnOp:
+						if eg, isG := e.X.(*ssa.Global); isG && e.Op == token.MUL {
+							v = m.symbolic(eg.Pkg.Pkg.Name()+"."+eg.Name(), eg.Type().(*types.Pointer).Elem())
+						}
+					}
+					if v == nil {
+						ok = false
+						continue
+					}
+					vals[int(idx.Int64())] = v
+				}
+			}
+		})
+	}
+	if !ok || len(vals) != int(at.Len()) {
+		return
+	}
+	for i, v := range vals {
+		ec := m.elemCell(c, i)
+		ec.val, ec.have = v, true
+	}
 }
 
 // slicesIntrinsic models the search helpers of package slices over a slice with known elements by running the
